@@ -55,10 +55,15 @@ def current_task():
 
 
 class Scheduler:
-    def __init__(self, choices=()):
+    def __init__(self, choices=(), tail=None):
         self.tasks = []
         self.choices = list(choices)
         self.pos = 0
+        # what to do once the explicit choices are used up: None = never pre-empt again; {"seed": s, "p": k} =
+        # go on pre-empting at about one decision in k, picking the other thread from a fixed congruential
+        # sequence (a pure function of the spec, so runs stay reproducible and shrinkable)
+        self.tail = dict(tail) if tail else None
+        self._x = (self.tail["seed"] * 2654435761 + 1) % (1 << 31) if self.tail else 0
         self.back = threading.Event()
         self.current = None
         self.decisions = []      # (n_options, current_was_enabled, choice_taken)
@@ -93,6 +98,11 @@ class Scheduler:
             return ordered[0]
         if self.pos < len(self.choices):
             c = self.choices[self.pos] % len(ordered)
+        elif self.tail:
+            self._x = (self._x * 1103515245 + 12345) % (1 << 31)
+            c = 0
+            if (self._x >> 16) % self.tail["p"] == 0:
+                c = (self._x >> 8) % len(ordered)
         else:
             c = 0
         self.pos += 1
